@@ -33,11 +33,23 @@ def slack_of(o):
     return SLACK_MS + (600 if o.get("e2e") else 0)
 
 
+LOW_JITTER_MS = 10     # a run whose 5 ms sleeps never overshot by more than this is a quiet window: its durations count
+EXTRA_SLACK = [0]      # set by settle() to ask "does the duration exceed the model by MUCH more than the slack?"
+
+
+def jitter_slack(o):
+    """the harness measures, while each case runs, by how much a goroutine sleeping 5 ms overshoots (jitter_ms); a probe
+    makes several requests with a handful of wake-ups each, so the duration comparison with the MODEL grants four of them
+    on top of the fixed slack -- nothing on a quiet machine, the starvation delay on a loaded one.  The property's own
+    bound keeps its fixed slack."""
+    return int(4 * min(o.get("jitter_ms") or 0, 300))
+
+
 def model_slack_of(o):
     """slack for the comparison with the model's logical duration: the model has no notion of transfer / decoding time,
     so a 2 MB body gets an allowance, and a busy machine a little more than the property's own bound gets"""
     huge = sum(1 for v in o["slots"].values() if v.get("body") == "huge_object")
-    return slack_of(o) + 40 + 200 * huge
+    return slack_of(o) + 40 + 200 * huge + jitter_slack(o) + EXTRA_SLACK[0]
 
 
 def mismatch(o):
@@ -243,11 +255,11 @@ def evaluate(ctx, rows, tag, nshards):
     return bad
 
 
-def rerun(ctx, rows, tag):
+def rerun(ctx, rows, tag, par=6):
     path = os.path.join(ctx.work, "%s_in.json" % tag)
     with open(path, "w") as f:
         json.dump(rows, f)
-    ok, _ = ctx.harness_run("c10", ["-out", "%s.jsonl" % tag, "-replay", path, "-par", 6], timeout=600)
+    ok, _ = ctx.harness_run("c10", ["-out", "%s.jsonl" % tag, "-replay", path, "-par", par], timeout=600)
     if not ok:
         return None
     return ctx.read_jsonl(os.path.join(ctx.work, "%s.jsonl" % tag))
@@ -268,23 +280,131 @@ def report(ctx, o, why):
     ctx.findings.append({"key": key, "what": why, "replay": path})
 
 
+def stretch(o, k):
+    """the same case with its whole timing multiplied by k"""
+    c = json.loads(json.dumps(o))
+    base = {"timeout": o["timeout"], "cancel": o["cancel"],
+            "delays": {n: v.get("delay", 0) for n, v in o["slots"].items()}, "class": o["class"]}
+    c["timeout"] = base["timeout"] * k
+    c["cancel"] = base["cancel"] * k if base["cancel"] > 0 else base["cancel"]
+    for n, v in c["slots"].items():
+        v["delay"] = base["delays"].get(n, 0) * k
+    c["class"] = "%s [timing x%d]" % (base["class"], k)
+    return c
+
+
+def time_only(o):
+    """the property fails on this observation only because of a measured duration (never for a HANG)"""
+    why = spec_on_impl(o)
+    return bool(why) and o["obs"] != 11 and (" took " in why)
+
+
 def settle(ctx, rows, tag, have_model):
+    import time
     bad = evaluate(ctx, rows, tag, 8 if len(rows) < 3000 else 48) if have_model else {}
-    for attempt in range(2):
-        idxs = sorted(set(bad) | {i for i, o in enumerate(rows) if spec_on_impl(o)})
-        if not idxs or len(idxs) > 60:
-            break
-        again = rerun(ctx, [rows[i] for i in idxs], "%s_retry%d" % (tag, attempt))
+
+    def redo(idxs, name, par):
+        again = rerun(ctx, [rows[i] for i in idxs], name, par)
         if again is None or len(again) != len(idxs):
-            break
+            return False
         for i, o in zip(idxs, again):
             rows[i] = o
-        sub = evaluate(ctx, again, "%s_retry%d" % (tag, attempt), 4) if have_model else {}
+        sub = evaluate(ctx, again, name, 4) if have_model else {}
         for k, i in enumerate(idxs):
             if k in sub:
                 bad[i] = sub[k]
             else:
                 bad.pop(i, None)
+        return True
+
+    for attempt in range(2):
+        idxs = sorted(set(bad) | {i for i, o in enumerate(rows) if spec_on_impl(o)})
+        if not idxs or len(idxs) > 60:
+            break
+        if not redo(idxs, "%s_retry%d" % (tag, attempt), 6):
+            break
+    # Starvation can also change an OUTCOME: with 150-230 ms timeouts a starved probe (4 requests, TLS, a 2 MB body) simply
+    # does not finish in time and ends with a deadline error.  Cases that still disagree, ended with a deadline-type error
+    # and ran while the scheduling jitter was high are run again with their whole timing (timeout, delays, cancellation)
+    # stretched x4, then x8: the model is invariant under scaling of time, the starvation delay is not.  The stretched
+    # observation replaces the original one (class suffix " [timing xK]") and is judged like any other.
+    def starved(i):
+        o = rows[i]
+        if (o.get("jitter_ms") or 0) <= LOW_JITTER_MS:
+            return False
+        if o["obs"] == 4:     # an error where the model expects a record (or another request sequence): a deadline?
+            return re.search(r"deadline exceeded|Client\.Timeout|i/o timeout|Cannot connect to the Docker daemon|"
+                             r"no record printed", o.get("err") or "") is not None
+        # a record without the secondary part where the model has it: the (ignored) secondary error is not visible, the
+        # usual cause under starvation is its deadline
+        return o["obs"] in (1, 3) and 1 in bad.get(i, [])
+
+    stretch_base = {}
+    for k in (4, 8):
+        sus = [i for i in sorted(set(bad) | {i for i, o in enumerate(rows) if spec_on_impl(o)}) if starved(i)]
+        if not sus or len(sus) > 40:
+            break
+        time.sleep(1.0)
+        saved = {i: rows[i] for i in sus}
+        for i in sus:
+            rows[i] = stretch(stretch_base.setdefault(i, saved[i]), k)
+        if not redo(sus, "%s_stretch%d" % (tag, k), 2):
+            for i in sus:
+                rows[i] = saved[i]
+            break
+        ctx.info.append("%d cases that ended with a deadline error under CPU starvation were run again with timing x%d" % (
+            len(sus), k))
+    # What is left and is about a DURATION only (outcome, record, request sequence all agree; or only the property's time
+    # bound is exceeded): under CPU starvation such a measurement says nothing.  Re-run these few cases up to three more
+    # times, two at a time, pausing while the measured scheduling jitter is high; a mismatch counts only if it persists in a
+    # quiet window (jitter <= LOW_JITTER_MS) or exceeds the allowance by a wide margin (250 ms + 12 x jitter) every time.
+    def duration_only(i):
+        o = rows[i]
+        codes = bad.get(i, [])
+        return o["obs"] < 96 and ((codes == [4] and not spec_on_impl(o)) or (codes in ([], [4]) and time_only(o)))
+
+    pending = [i for i in sorted(set(bad) | {i for i, o in enumerate(rows) if spec_on_impl(o)}) if duration_only(i)]
+    confirmed, wide = set(), {i: 0 for i in pending}
+    if 0 < len(pending) <= 40:
+        for rnd in range(3):
+            if not pending:
+                break
+            jit = max((rows[i].get("jitter_ms") or 0) for i in pending)
+            if jit > LOW_JITTER_MS:
+                time.sleep(min(4.0, 1.0 + jit / 50.0))
+            if not redo(pending, "%s_quiet%d" % (tag, rnd), 2):
+                break
+            still = [i for i in pending if bad.get(i) or spec_on_impl(rows[i])]
+            for i in still:
+                if not duration_only(i) or (rows[i].get("jitter_ms") or 0) <= LOW_JITTER_MS:
+                    confirmed.add(i)
+            rest = [i for i in still if i not in confirmed]
+            if rest:
+                sub = {}
+                if have_model:
+                    EXTRA_SLACK[0] = 250 + int(8 * max((rows[i].get("jitter_ms") or 0) for i in rest))
+                    try:
+                        sub = evaluate(ctx, [rows[i] for i in rest], "%s_wide%d" % (tag, rnd), 2)
+                    finally:
+                        EXTRA_SLACK[0] = 0
+                for k, i in enumerate(rest):
+                    o = rows[i]
+                    over_bound = o["dur_ms"] > time_bound(o) + slack_of(o) + 250 + 3 * jitter_slack(o)
+                    if 4 in sub.get(k, []) or over_bound:
+                        wide[i] += 1
+            pending = [i for i in still if i not in confirmed]
+        for i in pending:
+            if wide.get(i, 0) >= 3:
+                confirmed.add(i)
+        dropped = [i for i in pending if i not in confirmed]
+        for i in dropped:
+            bad.pop(i, None)
+            rows[i]["inconclusive"] = True
+        if dropped:
+            ctx.info.append("%d duration comparisons were inconclusive because of CPU starvation (scheduling jitter up to "
+                            "%.0f ms in every re-run) and are not counted: cases %s" % (
+                                len(dropped), max((rows[i].get("jitter_ms") or 0) for i in dropped),
+                                [rows[i]["id"] for i in dropped][:10]))
     return rows, bad
 
 
@@ -487,7 +607,7 @@ def run(ctx):
             ctx.broken.append(("correspondence: harness could not run case %d (%s)" % (o["id"], o["err"]), ""))
             continue
         why = spec_on_impl(o)
-        if why:
+        if why and not (o.get("inconclusive") and time_only(o)):
             report(ctx, o, why)
     for i, codes in sorted(bad.items())[:20]:
         o = rows[i]
